@@ -9,7 +9,7 @@
            proved to decide the Prop-level specifications eids_spec / sids_spec / new_tile_spec_obs;
    class = "int64_overflow" iff the int64 computation of some tile's range wraps (AltKey.key2z64m not exact): outside the property's
            domain (base exponent outside 0..35 or |offset| > 2^50); the generators stay inside, where exactness is a theorem. *)
-From Coq Require Import ZArith String List Bool Lia Permutation Reals.
+From Coq Require Import ZArith String List Bool Lia Permutation Reals Orders Mergesort.
 From SID Require Import Base Str Wire AltKeyCore AltKey Ids ZoomCore Notation Tile.
 Import ListNotations.
 Open Scope string_scope.
@@ -65,38 +65,73 @@ Proof.
   destruct (in_rangeb _ _ && in_rangeb _ _); split; auto; try discriminate. intros [?|?]; discriminate.
 Qed.
 
-(* j has the footprint of t, the requested vertical zoom, and a vertical index inside the reference range of t *)
-Definition stems_b (E O outV : Z) (t : tile) (j : eid) : bool :=
-  match tile_ref E O outV t with
-  | Some (mn, mx) => (eh j =? th t) && (ex j =? tx t) && (ey j =? ty t) && (ev j =? outV) && (mn <=? ef j) && (ef j <=? mx)
-  | None => false
-  end.
+(* j has the footprint of t, the requested vertical zoom, and a vertical index inside [mn, mx] (vertical index tested first: it decides
+   almost always) *)
+Definition stems_in (t : tile) (outV mn mx : Z) (j : eid) : bool :=
+  (ef j <=? mx) && (mn <=? ef j) && (eh j =? th t) && (ex j =? tx t) && (ey j =? ty t) && (ev j =? outV).
+(* the same against a tile paired with its (pre-computed) reference range *)
+Definition stems_ref (outV : Z) (tr : tile * option (Z * Z)) (j : eid) : bool :=
+  match snd tr with Some (mn, mx) => stems_in (fst tr) outV mn mx j | None => false end.
+Definition stems_b (E O outV : Z) (t : tile) (j : eid) : bool := stems_ref outV (t, tile_ref E O outV t) j.
 (* the whole reference range of t is present (counted: r has no duplicates) *)
-Definition covered_b (E O outV : Z) (r : list eid) (t : tile) : bool :=
-  match tile_ref E O outV t with
-  | Some (mn, mx) => Z.of_nat (length (filter (stems_b E O outV t) r)) =? mx - mn + 1
+Definition covered_ref (outV : Z) (r : list eid) (tr : tile * option (Z * Z)) : bool :=
+  match snd tr with
+  | Some (mn, mx) => Z.of_nat (length (filter (stems_in (fst tr) outV mn mx) r)) =? mx - mn + 1
   | None => false
   end.
-Definition rejected_b (E O outV : Z) (t : tile) : bool := match tile_ref E O outV t with None => true | Some _ => false end.
+Definition covered_b (E O outV : Z) (r : list eid) (t : tile) : bool := covered_ref outV r (t, tile_ref E O outV t).
+Definition rejected_ref (tr : tile * option (Z * Z)) : bool := match snd tr with None => true | Some _ => false end.
+Definition rejected_b (E O outV : Z) (t : tile) : bool := rejected_ref (t, tile_ref E O outV t).
 
-(* observed: Some r = no error, IDs r;  None = an error and no result *)
+Fixpoint nodup_fast (l : list eid) : bool :=
+  match l with [] => true | a :: r => negb (memb eid_eqf a r) && nodup_fast r end.
+Lemma nodup_fast_spec l : nodup_fast l = true <-> NoDup l.
+Proof.
+  induction l as [|a r IH]; cbn; [split; [constructor|reflexivity]|].
+  rewrite andb_true_iff, negb_true_iff, IH. split.
+  - intros [Hm Hr]. constructor; [|exact Hr]. intros Hin. apply (memb_In eid_eqf eid_eqf_spec) in Hin. congruence.
+  - intros H. inversion H as [|? ? Ha Hr]; subst. split; [|exact Hr]. apply not_true_is_false. intros Hm.
+    apply (memb_In eid_eqf eid_eqf_spec) in Hm. contradiction.
+Qed.
+
+(* observed: Some r = no error, IDs r;  None = an error and no result.  The reference of every tile is computed once. *)
 Definition check_eids (l : list tile) (E O outV : Z) (obs : option (list eid)) : bool :=
+  let refs := map (fun t => (t, tile_ref E O outV t)) l in
   match obs with
-  | Some r => nodup_eids r && forallb (covered_b E O outV r) l && forallb (fun j => existsb (fun t => stems_b E O outV t j) l) r
-  | None => existsb (rejected_b E O outV) l
+  | Some r => ext_check_zoom 0 outV && nodup_fast r && forallb (covered_ref outV r) refs && forallb (fun j => existsb (fun tr => stems_ref outV tr j) refs) r
+  | None => negb (ext_check_zoom 0 outV) || existsb rejected_ref refs
   end.
+
+Lemma forallb_map' {A B} (f : B -> bool) (g : A -> B) l : forallb f (map g l) = forallb (fun x => f (g x)) l.
+Proof. induction l as [|a l IH]; cbn; [reflexivity|]. now rewrite IH. Qed.
+Lemma existsb_map' {A B} (f : B -> bool) (g : A -> B) l : existsb f (map g l) = existsb (fun x => f (g x)) l.
+Proof. induction l as [|a l IH]; cbn; [reflexivity|]. now rewrite IH. Qed.
+Lemma forallb_ext' {A} (f g : A -> bool) l : (forall a, f a = g a) -> forallb f l = forallb g l.
+Proof. intros H. induction l as [|a l IH]; cbn; [reflexivity|]. now rewrite H, IH. Qed.
+Lemma check_eids_unfold l E O outV obs :
+  check_eids l E O outV obs =
+  match obs with
+  | Some r => ext_check_zoom 0 outV && nodup_fast r && forallb (covered_b E O outV r) l && forallb (fun j => existsb (fun t => stems_b E O outV t j) l) r
+  | None => negb (ext_check_zoom 0 outV) || existsb (rejected_b E O outV) l
+  end.
+Proof.
+  unfold check_eids. destruct obs as [r|]; [|rewrite existsb_map'; reflexivity]. rewrite forallb_map'.
+  replace (forallb (fun j => existsb (fun tr => stems_ref outV tr j) (map (fun t => (t, tile_ref E O outV t)) l)) r)
+    with (forallb (fun j => existsb (fun t => stems_b E O outV t j) l) r); [reflexivity|].
+  apply forallb_ext'. intros j. rewrite existsb_map'. reflexivity.
+Qed.
 
 (* the specification in the words of the property *)
 Definition eids_spec (l : list tile) (E O outV : Z) (obs : option (list eid)) : Prop :=
   match obs with
-  | Some r => (forall t, In t l -> exists mn mx, tile_accepted E O outV t mn mx) /\ NoDup r /\
+  | Some r => 0 <= outV <= 35 /\ (forall t, In t l -> exists mn mx, tile_accepted E O outV t mn mx) /\ NoDup r /\
               (forall j, In j r <-> exists t, In t l /\ from_tile E O outV t j)
-  | None => exists t, In t l /\ tile_rejected E O outV t
+  | None => ~ (0 <= outV <= 35) \/ exists t, In t l /\ tile_rejected E O outV t
   end.
 
 Lemma stems_b_spec E O outV t j : stems_b E O outV t j = true <-> from_tile E O outV t j.
 Proof.
-  unfold stems_b, from_tile. destruct (tile_ref E O outV t) as [[mn mx]|] eqn:R.
+  unfold stems_b, stems_ref, stems_in, from_tile. cbn [fst snd]. destruct (tile_ref E O outV t) as [[mn mx]|] eqn:R.
   - apply tile_ref_Some in R. rewrite !andb_true_iff, !Z.eqb_eq, !Z.leb_le. split.
     + intros H. exists mn, mx. tauto.
     + intros (mn' & mx' & [_ K] & H). destruct R as [_ K']. rewrite K' in K. injection K as <- <-. tauto.
@@ -114,8 +149,10 @@ Lemma covered_b_spec E O outV r t : NoDup r ->
   covered_b E O outV r t = true <->
   exists mn mx, tile_accepted E O outV t mn mx /\ forall f, mn <= f <= mx -> In (mk (th t) (tx t) (ty t) outV f) r.
 Proof.
-  intros Hnd. unfold covered_b. destruct (tile_ref E O outV t) as [[mn mx]|] eqn:R.
+  intros Hnd. unfold covered_b, covered_ref. cbn [fst snd]. destruct (tile_ref E O outV t) as [[mn mx]|] eqn:R.
   2:{ split; [discriminate|]. intros (mn & mx & A & _). apply tile_ref_Some in A. congruence. }
+  replace (filter (stems_in t outV mn mx) r) with (filter (stems_b E O outV t) r)
+    by (apply filter_ext; intros j; unfold stems_b, stems_ref; cbn [fst snd]; now rewrite R).
   pose proof R as Acc. apply tile_ref_Some in Acc.
   assert (Hle : mn <= mx) by (apply tile_accepted_C12 in Acc; cbv zeta in Acc; tauto).
   set (F := filter (stems_b E O outV t) r).
@@ -129,10 +166,10 @@ Proof.
   rewrite Z.eqb_eq. split.
   - intros Hlen. exists mn, mx. split; [exact Acc|]. intros f Hf.
     assert (Hin : In f (map ef F)).
-    { apply (NoDup_length_incl HFnd); [|exact Hincl|apply in_zrange; exact Hf].
+    { apply (@NoDup_length_incl Z (map ef F) (zrange mn mx) HFnd); [|exact Hincl|apply in_zrange; exact Hf].
       rewrite map_length, zrange_length. fold F in Hlen. lia. }
     apply in_map_iff in Hin. destruct Hin as (j & <- & Hj). apply HF in Hj. destruct Hj as [Hjr (mn' & mx' & _ & E1 & E2 & E3 & E4 & _)].
-    replace (mk (th t) (tx t) (ty t) outV (ef j)) with j; [exact Hjr|]. destruct j; cbn in *. congruence.
+    replace (mk (th t) (tx t) (ty t) outV (ef j)) with j; [exact Hjr|]. destruct j; cbn in *; subst; reflexivity.
   - intros (mn' & mx' & [_ K] & Hall). destruct Acc as [Z K']. rewrite K' in K. injection K as <- <-.
     assert (P : Permutation (map ef F) (zrange mn mx)).
     { apply NoDup_Permutation; [exact HFnd|apply zrange_NoDup|]. intros f. split; [apply Hincl|].
@@ -144,20 +181,21 @@ Qed.
 (* THE CHECKER DECIDES THE SPECIFICATION *)
 Theorem check_eids_sound l E O outV obs : check_eids l E O outV obs = true <-> eids_spec l E O outV obs.
 Proof.
-  destruct obs as [r|]; cbn [check_eids eids_spec].
-  - rewrite !andb_true_iff, nodup_eids_spec, !forallb_forall. split.
-    + intros [[Hnd Hcov] Hst]. split; [|split; [exact Hnd|]].
-      * intros t Ht. apply (covered_b_spec _ _ _ _ _ Hnd) in Hcov; [|exact Ht]. destruct Hcov as (mn & mx & A & _). eauto.
+  rewrite check_eids_unfold. destruct obs as [r|]; cbn [eids_spec].
+  - rewrite !andb_true_iff, nodup_fast_spec, !forallb_forall, ext_check_zoom_0. split.
+    + intros [[[Hz Hnd] Hcov] Hst]. split; [exact Hz|]. split; [|split; [exact Hnd|]].
+      * intros t Ht. pose proof (Hcov t Ht) as C. apply (covered_b_spec _ _ _ _ _ Hnd) in C. destruct C as (mn & mx & A & _). eauto.
       * intros j. split.
         -- intros Hj. specialize (Hst j Hj). apply existsb_exists in Hst. destruct Hst as (t & Ht & S). exists t. split; [exact Ht|]. now apply stems_b_spec.
-        -- intros (t & Ht & (mn & mx & A & E1 & E2 & E3 & E4 & Hr)). specialize (Hcov t Ht). apply (covered_b_spec _ _ _ _ _ Hnd) in Hcov.
-           destruct Hcov as (mn' & mx' & [_ K'] & Hall). destruct A as [_ K]. rewrite K in K'. injection K' as <- <-.
-           replace j with (mk (th t) (tx t) (ty t) outV (ef j)); [apply Hall; exact Hr|]. destruct j; cbn in *. congruence.
-    + intros (Hacc & Hnd & Hmem). split; [split; [exact Hnd|]|].
+        -- intros (t & Ht & (mn & mx & A & E1 & E2 & E3 & E4 & Hr)). pose proof (Hcov t Ht) as C. apply (covered_b_spec _ _ _ _ _ Hnd) in C.
+           destruct C as (mn' & mx' & [_ K'] & Hall). destruct A as [_ K]. rewrite K in K'. injection K' as <- <-.
+           replace j with (mk (th t) (tx t) (ty t) outV (ef j)); [apply Hall; exact Hr|]. destruct j; cbn in *; subst; reflexivity.
+    + intros (Hz & Hacc & Hnd & Hmem). split; [split; [split; [exact Hz|exact Hnd]|]|].
       * intros t Ht. apply (covered_b_spec _ _ _ _ _ Hnd). destruct (Hacc t Ht) as (mn & mx & A). exists mn, mx. split; [exact A|].
-        intros f Hf. apply Hmem. exists t. split; [exact Ht|]. exists mn, mx. cbn. repeat split; try reflexivity; try lia; assumption.
+        intros f Hf. apply Hmem. exists t. split; [exact Ht|]. exists mn, mx. split; [exact A|]. cbn. repeat split; try reflexivity; lia.
       * intros j Hj. apply Hmem in Hj. destruct Hj as (t & Ht & S). apply existsb_exists. exists t. split; [exact Ht|]. now apply stems_b_spec.
-  - rewrite existsb_exists. unfold rejected_b. split; intros (t & Ht & H); exists t; (split; [exact Ht|]).
+  - rewrite orb_true_iff, negb_true_iff, <- not_true_iff_false, ext_check_zoom_0, existsb_exists. unfold rejected_b, rejected_ref. cbn [snd].
+    split; (intros [N|(t & Ht & H)]; [now left|right]); exists t; (split; [exact Ht|]).
     + apply tile_ref_None. destruct (tile_ref E O outV t); [discriminate|reflexivity].
     + apply tile_ref_None in H. now rewrite H.
 Qed.
@@ -166,7 +204,7 @@ Qed.
 Theorem eids_spec_model l E O outV : eids_spec l E O outV (res_opt (tiles_to_eids l E O outV)).
 Proof.
   destruct (tiles_to_eids l E O outV) as [r|] eqn:H; cbn [res_opt eids_spec].
-  - split; [|split].
+  - split; [apply tiles_to_eids_Ok_inv in H; tauto|]. split; [|split].
     + intros t Ht. destruct (tiles_to_eids_complete _ _ _ _ _ _ H Ht) as (mn & mx & A & _). eauto.
     + eapply tiles_to_eids_NoDup; eauto.
     + apply tiles_to_eids_members. exact H.
@@ -180,9 +218,9 @@ Theorem eids_spec_unique l E O outV obs : eids_spec l E O outV obs ->
   end.
 Proof.
   intros S. pose proof (eids_spec_model l E O outV) as M. destruct obs as [r|], (tiles_to_eids l E O outV) as [r'|] eqn:H; cbn [res_opt eids_spec] in *.
-  - destruct S as (_ & N1 & M1), M as (_ & N2 & M2). apply NoDup_Permutation; try assumption. intros j. rewrite M1, M2. tauto.
-  - destruct S as (A & _), M as (t & Ht & R). destruct (A t Ht) as (mn & mx & [Z K]). destruct R as [R|R]; congruence.
-  - destruct M as (A & _), S as (t & Ht & R). destruct (A t Ht) as (mn & mx & [Z K]). destruct R as [R|R]; congruence.
+  - destruct S as (_ & _ & N1 & M1), M as (_ & _ & N2 & M2). apply NoDup_Permutation; try assumption. intros j. rewrite M1, M2. tauto.
+  - destruct S as (Hz & A & _), M as [N|(t & Ht & R)]; [contradiction|]. destruct (A t Ht) as (mn & mx & [Z K]). destruct R as [R|R]; congruence.
+  - destruct M as (Hz & A & _), S as [N|(t & Ht & R)]; [contradiction|]. destruct (A t Ht) as (mn & mx & [Z K]). destruct R as [R|R]; congruence.
   - exact I.
 Qed.
 
@@ -195,7 +233,62 @@ Definition ref_range (E O outV : Z) (t : tile) : list eid :=
   | None => []
   end.
 Definition ref_eids (l : list tile) (E O outV : Z) : option (list eid) :=
-  if existsb (rejected_b E O outV) l then None else Some (nodupb eid_eqb (flat_map (ref_range E O outV) l)).
+  if negb (ext_check_zoom 0 outV) || existsb (rejected_b E O outV) l then None else Some (nodupb eid_eqf (flat_map (ref_range E O outV) l)).
+
+(* multiset equality of ID lists: merge sort on the five numbers (vertical index first), then ordered comparison *)
+Fixpoint lex_leb (a b : list Z) : bool :=
+  match a, b with
+  | [], _ => true
+  | _ :: _, [] => false
+  | x :: a', y :: b' => if x <? y then true else if y <? x then false else lex_leb a' b'
+  end.
+Lemma lex_leb_total a b : lex_leb a b = true \/ lex_leb b a = true.
+Proof.
+  revert b. induction a as [|x a IH]; destruct b as [|y b]; cbn; auto.
+  destruct (Z.ltb_spec x y), (Z.ltb_spec y x); auto; lia.
+Qed.
+Module EidOrder <: TotalLeBool.
+  Definition t := eid.
+  Definition leb (a b : eid) : bool := lex_leb [ef a; eh a; ex a; ey a; ev a] [ef b; eh b; ex b; ey b; ev b].
+  Theorem leb_total : forall a b, leb a b = true \/ leb b a = true.
+  Proof. intros a b. apply lex_leb_total. Qed.
+End EidOrder.
+Module EidSort := Sort EidOrder.
+Definition eids_multiset_eqb (a b : list eid) : bool := list_eqb eid_eqb (EidSort.sort a) (EidSort.sort b).
+Lemma eids_multiset_eqb_perm a b : eids_multiset_eqb a b = true -> Permutation a b.
+Proof.
+  unfold eids_multiset_eqb. intros H. destruct (list_eqb_spec eid_eqb eid_eqb_spec (EidSort.sort a) (EidSort.sort b)) as [E|]; [|discriminate].
+  apply Permutation_trans with (EidSort.sort a); [apply EidSort.Permuted_sort|]. rewrite E. apply Permutation_sym, EidSort.Permuted_sort.
+Qed.
+
+
+(* the strings ss are the canonical spatial IDs of a permutation of ref (parsed once, compared as numbers: sorting thousands of strings
+   is the dominant cost otherwise) *)
+Definition sids_match (ss : list string) (ref : list eid) : bool :=
+  match map_opt parse_sid ss with
+  | Some js => forall2b (fun s j => String.eqb s (print_sid j)) ss js && eids_multiset_eqb js ref
+  | None => false
+  end.
+Lemma sids_match_sound ss ref : sids_match ss ref = true -> Permutation ss (map print_sid ref).
+Proof.
+  unfold sids_match. destruct (map_opt parse_sid ss) as [js|]; [|discriminate]. rewrite andb_true_iff. intros [F P].
+  apply eids_multiset_eqb_perm in P.
+  assert (E : ss = map print_sid js).
+  { apply (forall2b_spec _ (fun s j => s = print_sid j)) in F; [|intros a b; apply String.eqb_eq]. clear P.
+    induction F as [|s j ss' js' H _ IH]; cbn; [reflexivity|]. f_equal; [exact H|exact IH]. }
+  rewrite E. now apply Permutation_map.
+Qed.
+Lemma eids_multiset_eqb_refl a : eids_multiset_eqb a a = true.
+Proof. unfold eids_multiset_eqb. destruct (list_eqb_spec eid_eqb eid_eqb_spec (EidSort.sort a) (EidSort.sort a)); congruence. Qed.
+Lemma sids_match_complete ref : (forall j, In j ref -> fields_ok j = true /\ eh j = ev j) -> sids_match (map print_sid ref) ref = true.
+Proof.
+  intros H. unfold sids_match.
+  assert (E : map_opt parse_sid (map print_sid ref) = Some ref).
+  { induction ref as [|j r IH]; cbn [map map_opt]; [reflexivity|].
+    destruct (H j (or_introl eq_refl)) as [F Z]. rewrite (parse_print_sid j F Z), IH; [reflexivity|]. intros k Hk. apply H. now right. }
+  rewrite E, eids_multiset_eqb_refl, andb_true_r. clear E H.
+  induction ref as [|j r IH]; cbn [map forall2b]; [reflexivity|]. now rewrite String.eqb_refl, IH.
+Qed.
 
 Definition multiset_eqb (a b : list string) : bool := list_eqb String.eqb (sort_strings a) (sort_strings b).
 Lemma multiset_eqb_perm a b : multiset_eqb a b = true -> Permutation a b.
@@ -208,14 +301,14 @@ Proof. unfold multiset_eqb. destruct (list_eqb_spec String.eqb String.eqb_spec (
 
 Definition check_sids (l : list tile) (E O outV : Z) (obs : option (list string)) : bool :=
   match ref_eids l E O outV, obs with
-  | Some r, Some ss => multiset_eqb ss (map print_sid (flat_map expand_rec r))
+  | Some r, Some ss => sids_match ss (flat_map expand_rec r)
   | None, None => true
   | _, _ => false
   end.
 Definition sids_spec (l : list tile) (E O outV : Z) (obs : option (list string)) : Prop :=
   match obs with
   | Some ss => exists r, eids_spec l E O outV (Some r) /\ Permutation ss (map print_sid (flat_map expand_rec r))
-  | None => exists t, In t l /\ tile_rejected E O outV t
+  | None => eids_spec l E O outV None
   end.
 
 Lemma ref_range_out E O outV t : ref_range E O outV t = tile_out E O outV t.
@@ -226,7 +319,8 @@ Proof.
 Qed.
 Lemma ref_eids_model l E O outV : ref_eids l E O outV = res_opt (tiles_to_eids l E O outV).
 Proof.
-  unfold ref_eids, tiles_to_eids. destruct (existsb (rejected_b E O outV) l) eqn:X.
+  unfold ref_eids, tiles_to_eids. destruct (ext_check_zoom 0 outV); cbn [negb orb]; [|reflexivity].
+  destruct (existsb (rejected_b E O outV) l) eqn:X.
   - apply existsb_exists in X. destruct X as (t & Ht & R). unfold rejected_b in R. destruct (tile_ref E O outV t) eqn:T; [discriminate|].
     apply tile_ref_None, tile_ids_Err in T. assert (Y : tiles_collect E O outV l = Err) by (apply tiles_collect_Err; eauto). now rewrite Y.
   - destruct (tiles_collect E O outV l) as [a|] eqn:C.
@@ -239,17 +333,25 @@ Theorem check_sids_sound l E O outV obs : check_sids l E O outV obs = true -> si
 Proof.
   unfold check_sids. rewrite ref_eids_model. pose proof (eids_spec_model l E O outV) as M.
   destruct (tiles_to_eids l E O outV) as [r|]; cbn [res_opt] in *; destruct obs as [ss|]; try discriminate; cbn [sids_spec].
-  - intros H. exists r. split; [exact M|]. now apply multiset_eqb_perm.
+  - intros H. exists r. split; [exact M|]. now apply sids_match_sound.
   - intros _. exact M.
 Qed.
-(* no false alarm: the model's own output is accepted, and it meets the specification *)
-Theorem check_sids_model l E O outV : check_sids l E O outV (res_opt (tiles_to_sids l E O outV)) = true.
+(* the model meets the specification; and its own output is accepted by the checker (no false alarm) when the tiles' x, y are indices
+   of their horizontal zoom *)
+Theorem sids_spec_model l E O outV : sids_spec l E O outV (res_opt (tiles_to_sids l E O outV)).
 Proof.
-  unfold check_sids. rewrite ref_eids_model, tiles_to_sids_print. unfold tiles_to_sids_rec.
-  destruct (tiles_to_eids l E O outV) as [r|]; cbn [res_opt]; [apply multiset_eqb_refl|reflexivity].
+  pose proof (eids_spec_model l E O outV) as M. rewrite tiles_to_sids_print. unfold tiles_to_sids_rec.
+  destruct (tiles_to_eids l E O outV) as [r|]; cbn [res_opt sids_spec] in *; [|exact M]. exists r. split; [exact M|apply Permutation_refl].
 Qed.
-Corollary sids_spec_model l E O outV : sids_spec l E O outV (res_opt (tiles_to_sids l E O outV)).
-Proof. apply check_sids_sound, check_sids_model. Qed.
+Theorem check_sids_model l E O outV : (forall t, In t l -> footprint_ok t) ->
+  check_sids l E O outV (res_opt (tiles_to_sids l E O outV)) = true.
+Proof.
+  intros Hf. unfold check_sids. rewrite ref_eids_model, tiles_to_sids_print. unfold tiles_to_sids_rec.
+  destruct (tiles_to_eids l E O outV) as [r|] eqn:H; cbn [res_opt]; [|reflexivity]. apply sids_match_complete.
+  intros j Hj. apply in_flat_map in Hj. destruct Hj as (i & Hi & Hj).
+  pose proof (tiles_to_eids_valid _ _ _ _ _ H Hf i Hi) as Vi. destruct (expand_rec_valid i j Vi Hj) as (Vj & E1 & E2).
+  split; [now apply valid_fields_ok|congruence].
+Qed.
 (* what an accepted observation guarantees, in the words of the property (tiles with x, y inside their horizontal zoom) *)
 Theorem sids_spec_consequences l E O outV ss : sids_spec l E O outV (Some ss) -> (forall t, In t l -> footprint_ok t) ->
   exists r js, tiles_to_eids l E O outV = Ok r /\ tiles_to_sids_rec l E O outV = Ok js /\ Permutation ss (map print_sid js) /\
@@ -333,8 +435,6 @@ Definition obs_list (v : val) : option obsv :=
   | _ => match as_L v with Some l => Some (OkV l) | None => None end
   end.
 
-Definition eids_multiset_eqb (a b : list eid) : bool := multiset_eqb (map print_eid a) (map print_eid b).
-
 Definition exact_tiles (ts : list tile) (E O outV : Z) : bool :=
   forallb (fun t => negb (ext_check_zoom (th t) outV) || exact64 (key2z64m (tz t) (tv t) outV E O)) ts.
 
@@ -352,7 +452,9 @@ Definition eval_call (spatial : bool) (tiles : list val) (E O outV : Z) (obs : v
         | ErrPartial => Some (mkv false false "-" mv)
         | ErrNil => Some (mkv (negb (is_ok m)) (check_sids ts E O outV None) "-" mv)
         | OkV vs => match all_opt (map as_S vs) with
-                    | Some ss => Some (mkv (match m with Ok ms => multiset_eqb ms ss | Err => false end) (check_sids ts E O outV (Some ss)) "-" mv)
+                    | Some ss => Some (mkv (match tiles_to_sids_rec ts E O outV, m with
+                                           | Ok mj, Ok ms => sids_match ss mj || multiset_eqb ms ss
+                                           | _, _ => false end) (check_sids ts E O outV (Some ss)) "-" mv)
                     | None => None
                     end
         end
@@ -372,7 +474,7 @@ Definition eval_call (spatial : bool) (tiles : list val) (E O outV : Z) (obs : v
 
 Definition d_conv (spatial : bool) (args : list val) (obs : val) : verdict :=
   match args with
-  | [VL tiles; VZ E; VZ O; VZ outV] => match eval_call spatial tiles E O outV obs with Some v => v | None => bad_case end
+  | [VL tiles; VZ E; VZ Of; VZ outV] => match eval_call spatial tiles E Of outV obs with Some v => v | None => bad_case end
   | _ => bad_case
   end.
 
@@ -399,8 +501,8 @@ Definition d_new_tile (args : list val) (obs : val) : verdict :=
 Fixpoint eval_seq (calls obs : list val) : option (list verdict) :=
   match calls, obs with
   | [], [] => Some []
-  | VL [VL tiles; VZ E; VZ O; VZ outV; VB spatial] :: cr, o :: orest =>
-      match eval_call spatial tiles E O outV o, eval_seq cr orest with
+  | VL [VL tiles; VZ E; VZ Of; VZ outV; VB spatial] :: cr, o :: orest =>
+      match eval_call spatial tiles E Of outV o, eval_seq cr orest with
       | Some v, Some vs => Some (v :: vs)
       | _, _ => None
       end
@@ -418,30 +520,49 @@ Definition d_seq (args : list val) (obs : val) : verdict :=
   | _, _ => bad_case
   end.
 
+(* TilePair: both variants on the same arguments, observed [extended result; spatial result]. Besides the two individual verdicts the
+   spatial result must be, as a multiset, the C10 expansion of the OBSERVED extended IDs, and the two error flags must agree. *)
+Definition pair_ok (o1 o2 : val) : bool :=
+  match obs_list o1, obs_list o2 with
+  | Some (OkV v1), Some (OkV v2) =>
+      match all_opt (map val_eid v1), all_opt (map as_S v2) with
+      | Some r, Some ss => sids_match ss (flat_map expand_rec r) || multiset_eqb ss (flat_map expand_eid r)
+      | _, _ => false
+      end
+  | Some ErrNil, Some ErrNil => true
+  | _, _ => false
+  end.
+Definition d_pair (args : list val) (obs : val) : verdict :=
+  match args, obs with
+  | [VL tiles; VZ E; VZ Of; VZ outV], VL [o1; o2] =>
+      match eval_call false tiles E Of outV o1, eval_call true tiles E Of outV o2 with
+      | Some v1, Some v2 =>
+          let cl := if String.eqb (v_class v1) "-" then v_class v2 else v_class v1 in
+          mkv (v_corr v1 && v_corr v2) (v_prop v1 && v_prop v2 && pair_ok o1 o2) cl (VL [v_model v1; v_model v2])
+      | _, _ => bad_case
+      end
+  | _, _ => bad_case
+  end.
+
 Definition table_C13 : table :=
   [("ConvertTileXYZsToExtendedSpatialIDs", fun _ => d_conv false);
    ("ConvertTileXYZsToSpatialIDs", fun _ => d_conv true);
    ("NewTileXYZ", fun _ => d_new_tile);
-   ("TileSequence", fun _ => d_seq)].
+   ("TileSequence", fun _ => d_seq);
+   ("TilePair", fun _ => d_pair)].
 
-(* the guard of the class: with every per-tile int64 computation exact, ConvertAltitudekeyToMinMaxZ as executed is key2z *)
-Theorem exact_tiles_meaning ts E O outV t : exact_tiles ts E O outV = true -> In t ts -> ext_check_zoom (th t) outV = true ->
-  go_result (key2z64m (tz t) (tv t) outV E O) = Some (key2z (tz t) (tv t) outV E O).
+(* an accepted pair: the observed strings are a permutation of the expansion of the observed extended IDs *)
+Theorem pair_law_sound ss r : sids_match ss (flat_map expand_rec r) || multiset_eqb ss (flat_map expand_eid r) = true ->
+  Permutation ss (flat_map expand_eid r).
 Proof.
-  unfold exact_tiles. rewrite forallb_forall. intros H Ht Hz. specialize (H t Ht). rewrite Hz in H. cbn [negb orb] in H.
-  destruct (key2z64m (tz t) (tv t) outV E O) as [[r e]|] eqn:K; cbn in H; [|discriminate]. subst e.
-  cbn. f_equal. now apply key2z64m_exact.
+  intros H. apply orb_true_iff in H. destruct H as [H|H]; [|now apply multiset_eqb_perm].
+  apply sids_match_sound in H. rewrite map_flat_map' in H. erewrite flat_map_ext in H; [exact H|]. intros i. symmetry. apply expand_eid_rec.
 Qed.
-(* on the property's domain the class is empty *)
-Theorem exact_tiles_on_domain tiles ts E O outV : build tiles = Some (Ok ts) -> 0 <= E <= 35 -> - 2 ^ 50 <= O <= 2 ^ 50 ->
-  exact_tiles ts E O outV = true.
-Proof.
-  intros Hb HE HO. unfold exact_tiles. apply forallb_forall. intros t Ht.
-  assert (Hz : 0 <= tv t <= 35).
-  { revert ts Hb Ht. induction tiles as [|v r IH]; cbn [build]; intros ts Hb Ht; [injection Hb as <-; destruct Ht|].
-    unfold raw_tile in Hb. destruct (as_LZ v) as [[|h [|x [|y [|vz [|z [|]]]]]]|]; try discriminate.
-    destruct (new_tile h x y vz z) as [t0|] eqn:N; destruct (build r) as [[ts0|]|]; try discriminate.
-    injection Hb as <-. destruct Ht as [<-|Ht]; [apply new_tile_ok in N; lia|eapply IH; eauto]. }
-  destruct (ext_check_zoom (th t) outV) eqn:Z; [|reflexivity]. cbn [negb orb]. apply ext_check_zoom_spec in Z.
-  rewrite key2z64m_domain by lia. reflexivity.
-Qed.
+(* ... and the law holds of the models *)
+Theorem pair_law_model l E O outV :
+  match tiles_to_eids l E O outV, tiles_to_sids l E O outV with
+  | Ok r, Ok ss => multiset_eqb ss (flat_map expand_eid r) = true
+  | Err, Err => True
+  | _, _ => False
+  end.
+Proof. unfold tiles_to_sids. destruct (tiles_to_eids l E O outV); [apply multiset_eqb_refl|exact I]. Qed.
